@@ -286,8 +286,19 @@ pub fn run_random(check: Arc<dyn Check>, tier: Tier, seed: u64, node_path: &str,
                     let ctx: &mut Ctx = &mut ctxc.borrow_mut();
                     ctx.shrinking = true;
                     let budget = if sig.contains("hang") { 40 } else { 500 };
-                    let minimal = shrink_stream(check.as_ref(), ctx, tier, minimal, &sig, budget);
+                    let original = minimal.clone();
+                    let mut minimal = shrink_stream(check.as_ref(), ctx, tier, minimal, &sig, budget);
                     ctx.shrinking = false;
+                    // bounds are shorter while shrinking: make sure the shrunk case fails under the full bounds too,
+                    // otherwise report the case as it was found
+                    {
+                        let mut s = Src::new(&minimal);
+                        let case = check.generate(&mut s, tier);
+                        let out = check.exec(&case, ctx);
+                        if out.violation.is_none() && out.infra.is_none() {
+                            minimal = original;
+                        }
+                    }
                     // re-run the shrunk case to get the final observation
                     let mut s = Src::new(&minimal);
                     let case = check.generate(&mut s, tier);
